@@ -87,6 +87,34 @@ fn alloc_limit(len: usize) -> u64 {
 /// wall-clock budget of one settle step (harness-only real clock, flags only)
 const SETTLE_WALL_BUDGET: Duration = Duration::from_secs(5);
 
+// CPU time of this thread in ms (Linux: utime + stime of /proc/thread-self/stat, 10 ms ticks). The wall clock alone
+// would turn a loaded machine into "hangs"; a step that really loops burns CPU, one that merely waits for a core does
+// not. Read once at the start of every run and again only when a step's wall time is over the budget; never logged.
+thread_local! { static CPU_AT_RUN_START: std::cell::Cell<u64> = const { std::cell::Cell::new(0) }; }
+pub(crate) fn thread_cpu_ms() -> u64 {
+    let Ok(s) = std::fs::read_to_string("/proc/thread-self/stat") else { return u64::MAX / 4 };
+    // fields after the ")" that closes comm: state is #3, utime #14, stime #15
+    let Some(rest) = s.rsplit_once(')').map(|x| x.1) else { return u64::MAX / 4 };
+    let f: Vec<&str> = rest.split_whitespace().collect();
+    let (u, st) = (f.get(11).and_then(|x| x.parse::<u64>().ok()), f.get(12).and_then(|x| x.parse::<u64>().ok()));
+    match (u, st) {
+        (Some(u), Some(st)) => (u + st) * 10,
+        _ => u64::MAX / 4,
+    }
+}
+pub(crate) fn mark_run_start_cpu() {
+    CPU_AT_RUN_START.with(|c| c.set(thread_cpu_ms()));
+}
+/// true when the wall time of a step is over the budget AND this run has burnt at least half the budget of CPU time
+/// since it started (a whole run normally costs a few ms of CPU)
+pub(crate) fn over_budget(wall: Duration) -> bool {
+    if wall <= SETTLE_WALL_BUDGET {
+        return false;
+    }
+    let used = thread_cpu_ms().saturating_sub(CPU_AT_RUN_START.with(|c| c.get()));
+    used >= SETTLE_WALL_BUDGET.as_millis() as u64 / 2
+}
+
 #[derive(Clone, Debug)]
 struct HOp {
     kind: String,
@@ -419,7 +447,8 @@ impl<'a> Engine<'a> {
             }
         }
         // C07.hang (in-run part): the settle step finished (we are here), but did it take absurdly long?
-        if wall > SETTLE_WALL_BUDGET {
+        // (a panic in the window is its own finding; symbolising its backtrace costs seconds of CPU)
+        if crate::sim::panic_count() == panics0 && over_budget(wall) {
             ctx.violate("C07.hang", format!("processing after one hostile input kept the run busy for more than {} s of wall-clock time before the virtual clock could advance; input: {note}", SETTLE_WALL_BUDGET.as_secs()));
         }
         // queue drained: the victim's socket consumer counted the datagram (rig 0)
@@ -686,6 +715,7 @@ impl<'a> Engine<'a> {
 }
 
 pub async fn run(ctx: &Ctx) {
+    mark_run_start_cpu();
     match ctx.plan.knob("rig", 0) {
         0 => run_rig0(ctx).await,
         1 | 2 => run_pc(ctx).await,
